@@ -268,6 +268,7 @@ func c14Case(rt *rapid.T, rec *vt.Rec) {
 	writeFaults := 0
 	var trace []string
 	reordered, nestedSeen, earlyReply := false, false, false
+	sentReleased := map[int]bool{}
 	failed := ""
 	falseStalls := 0
 	func() {
@@ -369,6 +370,9 @@ func c14Case(rt *rapid.T, rec *vt.Rec) {
 					reordered = true
 				}
 				trace = append(trace, fmt.Sprintf("run %s@%s", names[p.task], p.label))
+				if p.label == "sent" {
+					sentReleased[p.task] = true // this task's write has gone through (for a caller: its request is on its way)
+				}
 				sc.release(p)
 			case "deliverAB", "deliverBA":
 				q, dst := ab, cb
@@ -423,12 +427,11 @@ func c14Case(rt *rapid.T, rec *vt.Rec) {
 				c := callers[o.idx]
 				c.cancelled = true
 				cancels++
-				parkedBefore := false
-				for _, p := range sc.parkedList() {
-					if p.task == o.idx {
-						parkedBefore = true // still inside the write of its request: it has not been sent yet
-					}
-				}
+				// (whether the request has been sent is taken from the controller's own record of releases, not from a
+				// second look at the parked list: under load the stack-snapshot quiescence test is occasionally
+				// premature, and a caller that has not even reached its first yield point would be misjudged -
+				// thorough run of 2026-09-29, one flaky report in 96 000 cases)
+				parkedBefore := !sentReleased[o.idx]
 				c.cancel()
 				trace = append(trace, "cancel "+c.token)
 				// promptness: the cancelled call must be parked-free and finished by the next quiescent point,
